@@ -20,6 +20,9 @@
      11 queued packets not sent (in time) after the handshake completed,
         response not sent
      12 unexpected TUN write      13 TUN write late or missing
+     15 packets were queued for a peer without session and without a handshake
+        attempt in progress (e.g. right after the device came up again) and no
+        initiation follows at once
      14 a handshake is started although a young session exists and the peer
         answered everything sent (the converse reading of clause 6) *)
 From WG Require Import Base.Prelude Gen.Constants Timers.Model.
@@ -36,7 +39,7 @@ Definition item_time (x : item) : N :=
 Definition output_eqb (a b : output) : bool :=
   match a, b with
   | OInit, OInit | OResp, OResp | OKeepalive, OKeepalive => true
-  | OData x, OData y | OTun x, OTun y => x =? y
+  | OData x, OData y | OTun x, OTun y | OErr x, OErr y => x =? y
   | _, _ => false
   end.
 
@@ -50,7 +53,7 @@ Definition p_keepalive : N := 10 * sec.        (* "a keepalive 10 s after receiv
 Definition p_newhs : N := 15 * sec.            (* "within 15 s (plus jitter) of sending data" *)
 
 Record mon := {
-  m_sess : N;                      (* 0 no session, 1 responder awaiting confirmation, 2 established *)
+  m_sess : N;                      (* 0 no session, 1 responder awaiting confirmation, 2 established, 3 device down *)
   m_queue : list (list N);         (* TUN batches queued while no session, oldest first *)
   m_expect : list (output * N);    (* datagrams owed at once, with the time of their cause *)
   m_tun : list (N * N);            (* TUN writes owed (id, time of cause) *)
@@ -59,11 +62,12 @@ Record mon := {
   m_recv : option N;               (* first data received and nothing sent since *)
   m_sent : option N;               (* first data sent and nothing authenticated received since *)
   m_last : option N;               (* last authenticated packet in either direction *)
-  m_est : N }.                     (* when the session was established *)
+  m_est : N;                       (* when the session was established *)
+  m_owed : option N }.             (* an initiation is owed since then *)
 
 Definition mon0 : mon :=
   {| m_sess := 0; m_queue := []; m_expect := []; m_tun := []; m_optka := false;
-     m_init := None; m_recv := None; m_sent := None; m_last := None; m_est := 0 |}.
+     m_init := None; m_recv := None; m_sent := None; m_last := None; m_est := 0; m_owed := None |}.
 
 Section Monitor.
   Variables pka lo hi : N.
@@ -82,7 +86,7 @@ Section Monitor.
         if (maxTransmissions <=? n) && negb no_giveup && (t' + p_rekey + jmax + hi <? t)
         then {| m_sess := m_sess m; m_queue := []; m_expect := m_expect m; m_tun := m_tun m;
                 m_optka := m_optka m; m_init := m_init m; m_recv := m_recv m; m_sent := m_sent m;
-                m_last := m_last m; m_est := m_est m |}
+                m_last := m_last m; m_est := m_est m; m_owed := m_owed m |}
         else m
     | None => m
     end.
@@ -95,35 +99,48 @@ Section Monitor.
        m_expect := m_expect m ++ map (fun id => (OData id, t)) (concat (m_queue m));
        m_tun := m_tun m;
        m_optka := true;
-       m_init := None; m_recv := m_recv m; m_sent := None; m_last := Some t; m_est := t |}.
+       m_init := None; m_recv := m_recv m; m_sent := None; m_last := Some t; m_est := t; m_owed := None |}.
 
   Definition on_input (t : N) (i : input) (m : mon) : mon :=
     match i with
-    | IStart | IFire _ => m
+    | IFire _ | IFail _ => m
+    | IStop =>                       (* device down: everything is dropped, nothing is owed *)
+        {| m_sess := 3; m_queue := []; m_expect := []; m_tun := []; m_optka := false;
+           m_init := None; m_recv := None; m_sent := None; m_last := None; m_est := 0; m_owed := None |}
+    | IStart =>                      (* device up: the interval of silence starts now *)
+        {| m_sess := 0; m_queue := []; m_expect := []; m_tun := []; m_optka := false;
+           m_init := None; m_recv := None; m_sent := None; m_last := Some t; m_est := 0; m_owed := None |}
     | ITun ids =>
         if m_sess m =? 2 then
           {| m_sess := 2; m_queue := m_queue m;
              m_expect := m_expect m ++ map (fun id => (OData id, t)) ids;
              m_tun := m_tun m; m_optka := m_optka m; m_init := m_init m; m_recv := m_recv m;
-             m_sent := m_sent m; m_last := m_last m; m_est := m_est m |}
+             m_sent := m_sent m; m_last := m_last m; m_est := m_est m; m_owed := m_owed m |}
+        else if m_sess m =? 3 then m       (* the TUN reader drops packets for a stopped peer *)
         else
-          {| m_sess := m_sess m; m_queue := push_queue ids (m_queue m); m_expect := m_expect m;
-             m_tun := m_tun m; m_optka := m_optka m;
-             (* new traffic restarts the attempt counter; after giving up it starts a new attempt *)
-             m_init := match m_init m with
+          let init' := match m_init m with
                        | Some (t', n) =>
                            if (maxTransmissions <=? n) && negb no_giveup && (t' + p_rekey <=? t)
                            then None else Some (t', 1)
                        | None => None
-                       end;
-             m_recv := m_recv m; m_sent := m_sent m; m_last := m_last m; m_est := m_est m |}
+                       end in
+          {| m_sess := m_sess m; m_queue := push_queue ids (m_queue m); m_expect := m_expect m;
+             m_tun := m_tun m; m_optka := m_optka m;
+             (* new traffic restarts the attempt counter; after giving up it starts a new attempt *)
+             m_init := init';
+             m_recv := m_recv m; m_sent := m_sent m; m_last := m_last m; m_est := m_est m;
+             (* no session and no attempt in progress: the queued packets need a handshake now *)
+             m_owed := match m_owed m, init' with
+                       | None, None => if m_sess m =? 0 then Some t else None
+                       | o, _ => o
+                       end |}
     | IResp => complete t m
     | IInit =>
         {| m_sess := if m_sess m =? 2 then 2 else 1; m_queue := m_queue m;
            m_expect := m_expect m ++ [(OResp, t)]; m_tun := m_tun m; m_optka := m_optka m;
            (* the peer's handshake supersedes the device's pending attempt (its
               retransmission is rate-limited against the response just sent) *)
-           m_init := None; m_recv := m_recv m; m_sent := None; m_last := Some t; m_est := m_est m |}
+           m_init := None; m_recv := m_recv m; m_sent := None; m_last := Some t; m_est := m_est m; m_owed := m_owed m |}
     | IRecv d =>
         if m_sess m =? 0 then m else
         let m := if m_sess m =? 1 then complete t m else m in
@@ -131,7 +148,7 @@ Section Monitor.
            m_tun := m_tun m ++ match d with Some id => [(id, t)] | None => [] end;
            m_optka := m_optka m; m_init := m_init m;
            m_recv := match d, m_recv m with Some _, None => Some t | _, r => r end;
-           m_sent := None; m_last := Some t; m_est := m_est m |}
+           m_sent := None; m_last := Some t; m_est := m_est m; m_owed := m_owed m |}
     end.
 
   Definition opt_min (a b : option N) : option N :=
@@ -142,7 +159,10 @@ Section Monitor.
     end.
 
   Definition persist_due (m : mon) : option N :=
-    if (0 <? pka) && (m_sess m =? 2)
+    if (0 <? pka) && ((m_sess m =? 2) ||
+                      (* no session, no attempt in progress (device just came up): the keepalive
+                         that is due needs a handshake first; the initiation counts *)
+                      ((m_sess m =? 0) && match m_init m with None => true | _ => false end))
     then match m_last m with Some l => Some (l + pka * sec) | None => None end
     else None.
   Definition recv_due (m : mon) : option N :=
@@ -190,6 +210,9 @@ Section Monitor.
         | None => []
         end
       else [] in
+    let c_owed :=
+      if is_init then match m_owed m with Some c => if c + hi <? t then [15] else [] | None => [] end
+      else [] in
     let c_needless :=
       if is_init && (m_sess m =? 2) && (t <? m_est m + RekeyAfterTime)
          && match m_sent m, m_init m with None, None => true | _, _ => false end
@@ -213,8 +236,9 @@ Section Monitor.
            end in
     ({| m_sess := m_sess m; m_queue := m_queue m; m_expect := expect'; m_tun := m_tun m;
         m_optka := if free_ka then false else m_optka m;
-        m_init := init'; m_recv := None; m_sent := sent'; m_last := Some t; m_est := m_est m |},
-     c_late_p ++ c_late_r ++ c_early ++ c_newhs ++ c_needless ++ c_retx ++ c_exp).
+        m_init := init'; m_recv := None; m_sent := sent'; m_last := Some t; m_est := m_est m;
+        m_owed := if is_init then None else m_owed m |},
+     c_late_p ++ c_late_r ++ c_early ++ c_newhs ++ c_needless ++ c_owed ++ c_retx ++ c_exp).
 
   Definition on_tun (t id : N) (m : mon) : mon * list N :=
     match m_tun m with
@@ -222,7 +246,7 @@ Section Monitor.
         if i =? id then
           ({| m_sess := m_sess m; m_queue := m_queue m; m_expect := m_expect m; m_tun := rest;
               m_optka := m_optka m; m_init := m_init m; m_recv := m_recv m; m_sent := m_sent m;
-              m_last := m_last m; m_est := m_est m |}, if c + hi <? t then [13] else [])
+              m_last := m_last m; m_est := m_est m; m_owed := m_owed m |}, if c + hi <? t then [13] else [])
         else (m, [12])
     | [] => (m, [12])
     end.
@@ -243,13 +267,26 @@ Section Monitor.
      | Some st => if st + p_newhs + jmax + hi <? T then [6] else []
      | None => []
      end) ++
-    (match persist_due m with Some d => if d + hi <? T then [8] else [] | None => [] end).
+    (match persist_due m with Some d => if d + hi <? T then [8] else [] | None => [] end) ++
+    (match m_owed m with Some c => if c + hi <? T then [15] else [] | None => [] end).
 
   Definition mstep (m : mon) (x : item) : mon * list N :=
     let m := tick (item_time x) m in
     match x with
     | In t i => (on_input t i m, [])
     | Out t (OTun id) => on_tun t id m
+    | Out t (OErr k) =>
+        (* a send the bind refused is an ATTEMPT: for the timing clauses it counts
+           like the datagram itself (the device cannot do better), the packet is lost *)
+        match k with
+        | 0 => on_dgram t OInit m
+        | 1 => on_dgram t OResp m
+        | 2 => on_dgram t OKeepalive m
+        | _ => match m_expect m with
+               | (OData id, _) :: _ => on_dgram t (OData id) m
+               | _ => on_dgram t OKeepalive m
+               end
+        end
     | Out t o => on_dgram t o m
     | End T => (m, on_end T m)
     end.
